@@ -41,6 +41,8 @@ fn main() {
     std::fs::create_dir_all(&out).expect("create out dir");
     let r = match cmd.as_str() {
         "reflect" => reflect::run(&out),
+        "reflect-tableorder" => reflect::run_tableorder(&out),
+        "reflect-locks" => c11::reflect(&out).map_err(|e| e.to_string().into()),
         "c01" | "c03" | "c10" => storetrace::run(&out, seed, thorough, &cmd),
         "c02" => c02::run(&out, seed, thorough),
         "c02-child" => c02::child(&args),
